@@ -304,9 +304,20 @@ type sut struct {
 }
 
 // the follower's local read revision is above 1888 so that Revision == 1888 (the partition magic) is a past revision
-const baseRev = 3000
-const leaderRev = 3050
-const sched0 = baseRev + 10
+const startRev = 3000
+
+// per case (set by configure): the follower's read revision when the case starts, what the leader's /status reports,
+// and the leader's revision at the start of a schedule.  The read revision of a backend only moves forward
+// (tso.Commit raises), so a case does not reset it: it takes it as it finds it, once the sequencer is quiet.
+var baseRev, leaderRev, sched0 uint64 = startRev, startRev + 50, startRev + 10
+
+var mainSeq, idlePolls int64
+
+// quiesce waits until the sequencer of the system under test has found its next slot empty twice
+func quiesce() {
+	c := atomic.LoadInt64(&idlePolls)
+	lib.WaitUntil(2*time.Second, func() bool { return atomic.LoadInt64(&idlePolls) >= c+2 })
+}
 
 func newSut(scratch string) (*sut, error) {
 	kv, _, err := lib.NewEngine(lib.EngMem, scratch)
@@ -323,7 +334,7 @@ func newSut(scratch string) (*sut, error) {
 		}
 	}}
 	s.inner = backend.NewBackend(kv, backend.Config{Prefix: "/registry", Identity: "c18", EnableEtcdCompatibility: true}, &lib.NopMetrics{})
-	s.inner.SetCurrentRevision(baseRev)
+	s.inner.SetCurrentRevision(startRev)
 	s.rec = &recBackend{inner: s.inner}
 	s.st, err = newStatusSrv()
 	if err != nil {
@@ -359,8 +370,10 @@ func (s *sut) configure(c config) {
 	default:
 		s.st.mode.Store("ok")
 	}
+	quiesce()
+	baseRev = s.inner.GetCurrentRevision()
+	leaderRev, sched0 = baseRev+50, baseRev+10
 	atomic.StoreUint64(&s.st.rev, leaderRev)
-	s.inner.SetCurrentRevision(baseRev) // every case starts from the same local read revision
 	// ... and from a syncer that has installed nothing yet (the syncer remembers the largest revision it installed)
 	_ = s.syncer.Close()
 	s.syncer = revision.NewRevisionSyncer(s.rec, s.m, s.stub, nil)
@@ -739,6 +752,7 @@ func waitPoint(th *gthread, want string, d time.Duration) (string, bool) {
 // continues adversarially (late value last) so that the consequence is observed.
 func (s *sut) runSchedule(ls []label, leader0 uint64) ([2]*tstate, []string, string) {
 	s.configure(config{leader: false, proxy: false, reach: "ok"})
+	leader0 = sched0 // relative to the read revision the follower has now
 	atomic.StoreUint64(&s.st.rev, leader0)
 	atomic.StoreInt32(&s.st.gated, 1)
 	defer atomic.StoreInt32(&s.st.gated, 0)
@@ -1059,15 +1073,13 @@ func (s *sut) runOverlap(mode string) (lib.Case, string) {
 	s.configure(config{leader: false, proxy: false, reach: "ok"})
 	// something committed before A begins: written directly on the backend, revision r
 	ctx := context.Background()
-	// (the sequencer of this backend is not relied upon: configure() resets the committed revision for every
-	// case, so the revision the write was dealt is taken from its response; a scan at r reads it from the engine)
+	// (the revision the write was dealt is taken from its response; a scan at r reads it from the engine)
 	cr, cerr := s.inner.Create(ctx, &proto.CreateRequest{Key: []byte(fmt.Sprintf("/c18/overlap-%s", mode)), Value: []byte("v")})
 	if cerr != nil || cr == nil || !cr.Succeeded {
 		return lib.Case{Kind: "overlap-" + mode, Coq: lib.App("OverlapCase", lib.N(0), reachCoq(mode), "RespNone", "[]", lib.N(0), "false")}, "could not write the probe key"
 	}
 	r := cr.Header.Revision
 	atomic.StoreUint64(&s.st.rev, r)
-	s.inner.SetCurrentRevision(baseRev) // the follower is behind
 	s.rec.take()
 	fail := ""
 	d := 2 * time.Second
@@ -1290,7 +1302,14 @@ func main() {
 	rnd := lib.NewRand(args.Seed)
 	backend.VerifYieldHook = func(p string) {
 		if p == "seq.idle" {
-			time.Sleep(100 * time.Microsecond)
+			// the first sequencer to poll is the one of the system under test (created first)
+			id := lib.GoID()
+			if atomic.CompareAndSwapInt64(&mainSeq, 0, id) || atomic.LoadInt64(&mainSeq) == id {
+				atomic.AddInt64(&idlePolls, 1)
+				time.Sleep(50 * time.Microsecond)
+			} else {
+				time.Sleep(200 * time.Microsecond)
+			}
 		}
 	}
 	start := time.Now()
